@@ -290,4 +290,219 @@ theorem auto_var_operand {env : Env} {sn : String} {n : Nat} {s0 s1 : PState} {n
       ∃ l k, s1 = upd s0 l k :=
   epv_wp env sn n s0 _ _ h
 
+/-! ## non-vacuity -/
+section Examples
+
+/-- A token on a given line. -/
+def t (line : Nat) (ty : TT) (lit : String) : Tok := { type := ty, lit := lit, line := line, endLine := line }
+def cmd (id : Nat) (tok : Tok) : Stmt := .cmd { id := id, tok := tok, name := tok.lit, args := [] }
+
+/-- `switch (var(VAR_X)) {` on line 1. -/
+def headToks : List Tok :=
+  [t 1 .SWITCH "switch", t 1 .LPAREN "(", t 1 .VAR "var", t 1 .LPAREN "(", t 1 .IDENT "VAR_X", t 1 .RPAREN ")",
+   t 1 .RPAREN ")", t 1 .LBRACE "{"]
+
+/-! ### three cases and a `default` in the middle (`const K = 7`)
+```
+switch (var(VAR_X)) {
+case 1: lock
+case 2:
+default: release
+case K * 2: end
+}
+``` -/
+def exBody : List Tok :=
+  [t 2 .CASE "case", t 2 .INT "1", t 2 .COLON ":", t 2 .IDENT "lock",
+   t 3 .CASE "case", t 3 .INT "2", t 3 .COLON ":",
+   t 4 .DEFAULT "default", t 4 .COLON ":", t 4 .IDENT "release",
+   t 5 .CASE "case", t 5 .IDENT "K", t 5 .MUL "*", t 5 .INT "2", t 5 .COLON ":", t 5 .IDENT "end",
+   t 6 .RBRACE "}"]
+def exState : PState := { toks := headToks ++ exBody, eof := t 7 .EOF "", constants := [("K", "7")] }
+
+def exSegs : List Seg :=
+  [ ⟨.case (t 2 .CASE "case") [t 2 .INT "1"] (t 2 .COLON ":"), [cmd 0 (t 2 .IDENT "lock")], {}⟩,
+    ⟨.case (t 3 .CASE "case") [t 3 .INT "2"] (t 3 .COLON ":"), [], {}⟩,
+    ⟨.dflt (t 4 .DEFAULT "default") (t 4 .COLON ":"), [cmd 1 (t 4 .IDENT "release")], {}⟩,
+    ⟨.case (t 5 .CASE "case") [t 5 .IDENT "K", t 5 .MUL "*", t 5 .INT "2"] (t 5 .COLON ":"),
+      [cmd 2 (t 5 .IDENT "end")], {}⟩ ]
+
+def exCases : List SwitchCase :=
+  [ (t 2 .INT "1", false, [cmd 0 (t 2 .IDENT "lock")]),
+    (t 3 .INT "2", false, []),
+    ({}, true, [cmd 1 (t 4 .IDENT "release")]),
+    ({ t 5 .IDENT "K" with lit := "7 * 2" }, false, [cmd 2 (t 5 .IDENT "end")]) ]
+
+/-- the case list of the trace is the expected one: source order, default in third place -/
+example : exSegs.map (Seg.case (substC exState.constants)) = exCases := rfl
+
+theorem ex_run : ∃ imp s', (parseSwitchStatement {} "S" 20).run exState =
+    .ok (([.switch_ (t 1 .SWITCH "switch") 0 (t 1 .IDENT "VAR_X") exCases], imp), s') ∧
+      s'.toks = [t 6 .RBRACE "}"] ∧ s'.breakStack = [] :=
+  ⟨_, _, rfl, rfl, rfl⟩
+
+/-- `parse_switch_statement_order` applies: the run has the shape `SwitchRun`. -/
+example : ∃ r s', SwitchRun {} "S" 19 exState r s' ∧
+    r.1 = [.switch_ (t 1 .SWITCH "switch") 0 (t 1 .IDENT "VAR_X") exCases] := by
+  obtain ⟨imp, s', h, _⟩ := ex_run
+  exact ⟨_, _, parse_switch_statement_order {} "S" 19 exState rfl _ _ h, rfl⟩
+
+/-- `accepted_switch_cases_distinct` applies; the values are `1`, `2`, `7 * 2`. -/
+example : (nonDefaultValues exCases).Nodup ∧ numDefaults exCases ≤ 1 := by
+  obtain ⟨imp, s', h, _⟩ := ex_run
+  exact accepted_switch_cases_distinct {} "S" 19 exState rfl _ _ h (t 1 .SWITCH "switch") 0
+    (t 1 .IDENT "VAR_X") exCases (List.mem_singleton.2 rfl)
+example : nonDefaultValues exCases = ["1", "2", "7 * 2"] := by decide
+
+/-- `switch_operand` applies. -/
+example : ∃ sw lp tl operand pre oimp sO cases, exState.toks = sw :: lp :: tl ∧ lp.type = .LPAREN ∧
+    OperandAt {} "S" 19 (st (enter exState) (lp :: tl)) operand pre oimp sO ∧
+    [Stmt.switch_ (t 1 .SWITCH "switch") 0 (t 1 .IDENT "VAR_X") exCases] =
+      pre ++ [.switch_ sw exState.nextSid operand cases] := by
+  obtain ⟨imp, s', h, _⟩ := ex_run
+  exact switch_operand {} "S" 19 exState rfl _ _ h
+
+/-- the loop alone, on the window after `{`: an explicit trace -/
+def exLoopState : PState := { exState with toks := exBody }
+
+theorem ex_iter : ∃ se, Iter {} "S" (t 1 .LBRACE "{") 19 exLoopState exSegs 15 se ∧
+    se.toks = [t 6 .RBRACE "}"] :=
+  ⟨_, Iter.cons (rest := exBody.drop 3) rfl ⟨rfl, by decide, by decide, rfl⟩ (by decide) rfl
+    (Iter.cons (rest := exBody.drop 7) rfl ⟨rfl, by decide, by decide, rfl⟩ (by decide) rfl
+    (Iter.cons (rest := exBody.drop 9) rfl ⟨rfl, rfl⟩ (by decide) rfl
+    (Iter.cons (rest := exBody.drop 15) rfl ⟨rfl, by decide, by decide, rfl⟩ (by decide) rfl
+    (Iter.nil _ _)))), rfl⟩
+
+example : Accepted (substC exLoopState.constants) [] false exSegs := by
+  rw [accepted_iff]; decide
+
+/-- `parse_switch_cases_complete` and `parse_switch_cases_order` apply. -/
+example : ∃ imp se, (parseSwitchCases {} "S" (t 1 .LBRACE "{") 19 [] [] false {}).run exLoopState =
+    .ok ((exCases, true, imp), se) := by
+  obtain ⟨se, hit, hse⟩ := ex_iter
+  exact ⟨_, se, parse_switch_cases_complete hit (by rw [hse]; rfl) [] [] false {}
+    (by rw [accepted_iff]; decide)⟩
+
+example : ∃ segs se, CasesOf {} "S" (t 1 .LBRACE "{") exLoopState segs se ∧
+    exCases = [] ++ segs.map (Seg.case (substC exLoopState.constants)) := by
+  obtain ⟨se, hit, hse⟩ := ex_iter
+  have h := parse_switch_cases_complete hit (by rw [hse]; rfl) [] [] false {} (by rw [accepted_iff]; decide)
+  obtain ⟨segs, hc, _, hr, _⟩ := parse_switch_cases_order {} "S" (t 1 .LBRACE "{") 19 [] [] false {}
+    exLoopState rfl _ _ h
+  exact ⟨segs, se, hc, hr⟩
+
+/-! ### a duplicate through a constant (`const K = 1`)
+```
+switch (var(VAR_X)) {
+case K: lock
+case 1:
+}
+``` -/
+def dupBody : List Tok :=
+  [t 2 .CASE "case", t 2 .IDENT "K", t 2 .COLON ":", t 2 .IDENT "lock",
+   t 3 .CASE "case", t 3 .INT "1", t 3 .COLON ":", t 4 .RBRACE "}"]
+def dupLoopState : PState := { toks := dupBody, eof := t 5 .EOF "", constants := [("K", "1")] }
+def dupState : PState := { dupLoopState with toks := headToks ++ dupBody }
+def dupSeg : Seg :=
+  ⟨.case (t 2 .CASE "case") [t 2 .IDENT "K"] (t 2 .COLON ":"), [cmd 0 (t 2 .IDENT "lock")], {}⟩
+
+/-- `duplicate_case_rejected` applies (loop level): the error is on line 3, the later case. -/
+example : (parseSwitchCases {} "S" (t 1 .LBRACE "{") 10 [] [] false {}).run dupLoopState =
+    .error (newRangeParseError (t 3 .CASE "case") (t 3 .COLON ":")
+      "duplicate switch cases detected for case '1'") :=
+  duplicate_case_rejected [] [] false {}
+    (Iter.cons (g := dupSeg) (rest := dupBody.drop 3) rfl ⟨rfl, by decide, by decide, rfl⟩ (by decide) rfl
+      (Iter.nil 9 _))
+    ⟨rfl, trivial⟩ (c := t 3 .CASE "case") (vs := [t 3 .INT "1"]) (colon := t 3 .COLON ":")
+    (rest := [t 4 .RBRACE "}"]) rfl ⟨rfl, by decide, by decide, rfl⟩ (by decide) (by decide)
+
+/-- `switch_duplicate_case_rejected` applies (statement level). -/
+example : (parseSwitchStatement {} "S" 20).run dupState =
+    .error (newRangeParseError (t 3 .CASE "case") (t 3 .COLON ":")
+      "duplicate switch cases detected for case '1'") :=
+  switch_duplicate_case_rejected (s := dupState) (tl := headToks.drop 2 ++ dupBody) (ctoks := dupBody) rfl rfl
+    (OperandAt.var (ops := [t 1 .IDENT "VAR_X"]) (x := t 1 .RPAREN ")") (tl := t 1 .LBRACE "{" :: dupBody)
+      rfl rfl rfl (by decide) rfl (by decide))
+    rfl rfl
+    (Iter.cons (g := dupSeg) (rest := dupBody.drop 3) rfl ⟨rfl, by decide, by decide, rfl⟩ (by decide) rfl
+      (Iter.nil 18 _))
+    ⟨rfl, trivial⟩ (c := t 3 .CASE "case") (vs := [t 3 .INT "1"]) (colon := t 3 .COLON ":")
+    (rest := [t 4 .RBRACE "}"]) rfl ⟨rfl, by decide, by decide, rfl⟩ (by decide) (by decide)
+
+/-- the error is reported on line 3 -/
+example : ∃ e, (parseSwitchStatement {} "S" 20).run dupState = .error (.err e) ∧ e.lineStart = 3 ∧
+    e.lineEnd = 3 := ⟨_, rfl, rfl, rfl⟩
+
+/-! ### two defaults
+```
+default: lock
+default:
+}
+``` -/
+def ddBody : List Tok :=
+  [t 2 .DEFAULT "default", t 2 .COLON ":", t 2 .IDENT "lock", t 3 .DEFAULT "default", t 3 .COLON ":",
+   t 4 .RBRACE "}"]
+def ddLoopState : PState := { toks := ddBody, eof := t 5 .EOF "" }
+
+/-- `second_default_rejected` applies: the error is on the second `default` (line 3). -/
+example : (parseSwitchCases {} "S" (t 1 .LBRACE "{") 10 [] [] false {}).run ddLoopState =
+    .error (newParseError (t 3 .DEFAULT "default")
+      "multiple `default` cases found in switch statement. Only one `default` case is allowed") :=
+  have hit : Iter {} "S" (t 1 .LBRACE "{") 10 ddLoopState
+      [⟨.dflt (t 2 .DEFAULT "default") (t 2 .COLON ":"), [cmd 0 (t 2 .IDENT "lock")], {}⟩] 9
+      { ddLoopState with toks := ddBody.drop 3, nextCmdId := 1 } :=
+    Iter.cons (rest := ddBody.drop 2) rfl ⟨rfl, rfl⟩ (by decide) rfl (Iter.nil 9 _)
+  second_default_rejected [] [] false {} hit ⟨rfl, trivial⟩ rfl (Or.inr (by decide))
+
+/-! ### an auto-var operand: `switch (getpartysize) { case 1: }` with `getpartysize ↦ VAR_RESULT` -/
+def avEnv : Env := { autoVars := [("getpartysize", { varName := "VAR_RESULT" })] }
+def avState : PState :=
+  { toks := [t 1 .SWITCH "switch", t 1 .LPAREN "(", t 1 .IDENT "getpartysize", t 1 .RPAREN ")",
+             t 1 .LBRACE "{", t 2 .CASE "case", t 2 .INT "1", t 2 .COLON ":", t 3 .RBRACE "}"],
+    eof := t 4 .EOF "" }
+
+theorem av_run : ∃ imp s', (parseSwitchStatement avEnv "S" 20).run avState =
+    .ok (([cmd 0 (t 1 .IDENT "getpartysize"),
+           .switch_ (t 1 .SWITCH "switch") 0 (t 1 .IDENT "VAR_RESULT") [(t 2 .INT "1", false, [])]], imp), s') :=
+  ⟨_, _, rfl⟩
+
+/-- `switch_operand` applies with the `auto` form: the command precedes the switch. -/
+example : ∃ sw lp tl operand pre oimp sO cases, avState.toks = sw :: lp :: tl ∧ lp.type = .LPAREN ∧
+    OperandAt avEnv "S" 19 (st (enter avState) (lp :: tl)) operand pre oimp sO ∧
+    [cmd 0 (t 1 .IDENT "getpartysize"),
+      Stmt.switch_ (t 1 .SWITCH "switch") 0 (t 1 .IDENT "VAR_RESULT") [(t 2 .INT "1", false, [])]] =
+      pre ++ [.switch_ sw avState.nextSid operand cases] := by
+  obtain ⟨imp, s', h⟩ := av_run
+  exact switch_operand avEnv "S" 19 avState rfl _ _ h
+
+/-- `auto_var_operand` applies. -/
+example : ∃ name cmd aimp s1, (expectPeekVarOrAutoVar avEnv "S" 19).run
+      (st (enter avState) avState.toks.tail) = .ok (some (name, cmd, aimp), s1) ∧ name = "VAR_RESULT" :=
+  ⟨_, _, _, _, rfl, rfl⟩
+
+/-! ### the token after `var( … )` is not checked -/
+/-- `switch (var(VAR_X) lock { case 1: }` is accepted and parses like `switch (var(VAR_X)) { case 1: }`. -/
+theorem unchecked_token_after_operand :
+    ∃ imp s', (parseSwitchStatement {} "S" 20).run
+      { toks := [t 1 .SWITCH "switch", t 1 .LPAREN "(", t 1 .VAR "var", t 1 .LPAREN "(", t 1 .IDENT "VAR_X",
+                 t 1 .RPAREN ")", t 1 .IDENT "lock", t 1 .LBRACE "{", t 2 .CASE "case", t 2 .INT "1",
+                 t 2 .COLON ":", t 3 .RBRACE "}"],
+        eof := t 4 .EOF "" } =
+      .ok (([.switch_ (t 1 .SWITCH "switch") 0 (t 1 .IDENT "VAR_X") [(t 2 .INT "1", false, [])]], imp), s') :=
+  ⟨_, _, rfl⟩
+
+end Examples
+#print axioms parse_switch_cases_order
+#print axioms parse_switch_cases_complete
+#print axioms parse_switch_statement_order
+#print axioms parse_switch_statement_cases
+#print axioms duplicate_case_rejected
+#print axioms second_default_rejected
+#print axioms accepted_cases_distinct
+#print axioms accepted_switch_cases_distinct
+#print axioms switch_duplicate_case_rejected
+#print axioms switch_second_default_rejected
+#print axioms switch_operand
+#print axioms auto_var_operand
+#print axioms unchecked_token_after_operand
+
 end Pory.C03b
